@@ -152,7 +152,70 @@ def _decoy(n, npt):
     return _DECOYS[(n, npt)]
 
 
+class _Ref:
+    """The interpolation set of a real run as exact rationals (what exact_sigmas needs)."""
+
+    def __init__(self, xpt, x_base):
+        self.n = xpt.shape[0]
+        self.Y = [[Fr(float(v)) for v in xpt[:, k]] for k in range(xpt.shape[1])]
+        self.xb = [Fr(float(v)) for v in x_base]
+
+
+def e1_roots(tier):
+    """Real runs: every call of Models.determinants made by the solver itself (geometry steps, choice of the point
+    to remove) is compared with the exact ratio; the first calls of each run, n <= 2 (3 in thorough)."""
+    from .. import cover
+    out = []
+    for c in cover.roots_for(tier, monitors=["dets"]):
+        if tier == "quick" and c["tag"]["part"] != "cross-feature":
+            continue
+        if c["n"] > (2 if tier == "quick" else 3):
+            continue
+        c["explore"] = 0
+        c["dets_cap"] = 8 if c["n"] <= 2 else 4
+        out.append(c)
+    return out
+
+
+def e1_oracle(rec, table=None):
+    viol = []
+    for i, d in enumerate(rec.notes.get("dets", [])):
+        xpt, xb = d["xpt"], d["x_base"]
+        n, npt = xpt.shape
+        if not (np.all(np.isfinite(xpt)) and np.all(np.isfinite(d["x_new"])) and np.all(np.isfinite(d["out"]))):
+            continue
+        ref = _Ref(xpt, xb)
+        Winv = exact_inverse(e2models.kkt(ref.Y, n))
+        if Winv is None:
+            continue  # the set is exactly singular: no ratio is defined
+        kappa = e2models.kappa_of(xpt)
+        if e2models.truncates(xpt):
+            continue  # the solver's inverse is a truncated pseudo-inverse there (same rule as in the component search)
+        ex = exact_sigmas(ref, Winv, [float(v) for v in d["x_new"]])
+        ks = range(npt) if d["k"] is None else [d["k"]]
+        got = np.atleast_1d(d["out"])
+        for j, k in enumerate(ks):
+            sig, mag = float(ex[k][0]), float(ex[k][1])
+            tol = 1e3 * EPS * max(kappa, 1.0) * (mag + abs(sig)) + 1e-300
+            val = float(got[k] if d["k"] is None else got[0])
+            if not abs(val - sig) <= tol:
+                viol.append({"key": "run:ratio-wrong",
+                             "what": f"real run: determinants call #{i + 1} (k={d['k']}) returned {val!r} for index {k} "
+                                     f"but the exact ratio is {sig!r} (tolerance {tol:.3g}, kappa {kappa:.3g})"})
+                return viol
+    return viol
+
+
+def _e1_stats(rec, table, stats):
+    ds = rec.notes.get("dets", [])
+    stats["real_run_ratio_calls"] = stats.get("real_run_ratio_calls", 0) + len(ds)
+    stats["real_run_ratio_calls_seen"] = stats.get("real_run_ratio_calls_seen", 0) + rec.notes.get("dets_total", 0)
+
+
 def run_case(case):
+    if case.get("engine") != "E2-models" and "hist" not in case:
+        from .. import e1prop
+        return e1prop.run_case_generic(case, e1_oracle, extra_stats=_e1_stats)
     e2models.EXTRA_COORDS[:] = [2.0 ** -15]
     v = e2models.replay_history(case["n"], case["npt"], case["hist"], oracle)
     for x in v:
@@ -199,6 +262,15 @@ def execute(tier, seed, limit=0):
     nstates = res["flags"].get("has_ratios", 0)
     if nstates < 50:
         herr.append("fewer than 50 states had their determinant ratios checked")
+    # real runs
+    from .. import alpha
+    rts = alpha.permute(e1_roots(tier), seed)
+    if limit:
+        rts = rts[:limit]
+    for out in common.run_roots(__import__("mc.props.c14", fromlist=["x"]), rts):
+        agg.add(out)
+    if not agg.stats.get("real_run_ratio_calls"):
+        herr.append("no call of Models.determinants observed in real runs")
     per_state = {n: len(e2models.lattice(n, "full")) for n in (1, 2, 3)}
     cov = {
         "states": int(res["states"]), "transitions": int(res["transitions"]),
@@ -213,6 +285,12 @@ def execute(tier, seed, limit=0):
         "explanation": "every new state of the breadth-first search is a poised interpolation set; for each, "
                        "Models.determinants (all indices and one index) is compared with the exact ratio for every "
                        "lattice candidate and every index",
-        "evaluations": int(res["transitions"]), "distinct_nontrivial": int(nstates),
+        "real_runs": {"runs": int(agg.stats.get("runs", 0)),
+                      "determinant_calls_checked": int(agg.stats.get("real_run_ratio_calls", 0)),
+                      "determinant_calls_seen": int(agg.stats.get("real_run_ratio_calls_seen", 0)),
+                      "rule": "cross-feature cases (mc/cover.py) with n <= 2 (3 in thorough): the first 8 (4) calls "
+                              "the solver itself makes per run, each compared with the exact rational ratio of the "
+                              "run's own interpolation set"},
+        "evaluations": int(res["transitions"] + agg.stats.get("runs", 0)), "distinct_nontrivial": int(nstates),
     }
-    return agg, cov, herr, []
+    return agg, cov, herr, rts
